@@ -83,6 +83,42 @@ theorem tokens_sp_before_nl (x z : List Out) :
     simp [parse_cons (.sp), parse_nl, consOut, pushTok_nil]
   simp only [tokens, parse_append, this]
 
+/-! ### the refinement into language tokens keeps every character, in order -/
+
+theorem flushTok_flatten (cur : Tok) : (flushTok cur).flatten = cur := by
+  unfold flushTok
+  split <;> simp_all
+
+theorem lexChunk_flatten (cfg : LexCfg) (os : List Out) :
+    ∀ (cur : Tok) (k : Nat), (lexChunk cfg cur k os).flatten = cur ++ os := by
+  induction os with
+  | nil => intro cur k; simp [lexChunk, flushTok_flatten]
+  | cons o rest ih =>
+    intro cur k
+    simp only [lexChunk]
+    split
+    · rw [ih]; simp
+    · rw [List.flatten_append, flushTok_flatten, ih]; simp
+
+/-- no token produced by `lexChunk` is empty -/
+theorem lexChunk_nonempty (cfg : LexCfg) (os : List Out) :
+    ∀ (cur : Tok) (k : Nat), ∀ t ∈ lexChunk cfg cur k os, t ≠ [] := by
+  induction os with
+  | nil =>
+    intro cur k t ht
+    simp only [lexChunk, flushTok] at ht
+    split at ht <;> simp_all
+  | cons o rest ih =>
+    intro cur k t ht
+    simp only [lexChunk] at ht
+    split at ht
+    · exact ih _ _ t ht
+    · simp only [List.mem_append] at ht
+      rcases ht with ht | ht
+      · simp only [flushTok] at ht
+        split at ht <;> simp_all
+      · exact ih _ _ t ht
+
 /-! ### files -/
 
 theorem joinLines_append (a b : List Line) : joinLines (a ++ b) = joinLines a ++ joinLines b := by
